@@ -135,6 +135,15 @@ def gen_cfg(seed: int, faulty: typing.Optional[bool] = None) -> dict:
         if faulty and not req['fail'] and rng.random() < 0.06:
             req['cancel'] = rng.choice([0.0, 0.001, 0.3, 1.5])  # the caller goes away that long after arriving
         requests.append(req)
+    # clients resend: some requests carry a payload byte-identical to an earlier one (monitoring probes, retries,
+    # pollers) - possibly addressed to another application
+    dup = random.Random(seed ^ 0xD0B1E)
+    if dup.random() < 0.3:
+        for i, req in enumerate(requests):
+            sources = [r for r in requests[:i] if not r['fail'] and 'prid' not in r]
+            if sources and not req['fail'] and dup.random() < 0.4:
+                src = dup.choice(sources)
+                req.update(prid=src['rid'], nrows=src['nrows'], vals=list(src['vals']), swapped=src['swapped'])
     commits = []
     for app in apps:
         if app['kind'] == 'latest' and rng.random() < 0.5 and not burst:
@@ -175,7 +184,7 @@ def make_selector(app: dict) -> application.Selector:
 def make_request(req: dict) -> layout.Request:
     fail = req['fail']
     return serving.make_request(
-        req['rid'], req['nrows'], req['vals'],
+        req.get('prid', req['rid']), req['nrows'], req['vals'],
         accept='application/x-nonexistent' if fail == 'bad-accept' else 'application/json',
         content='application/x-nonexistent' if fail == 'bad-content' else 'application/json',
         drop_column='val' if fail == 'missing-column' else None, garbage=fail == 'garbage',
@@ -367,7 +376,8 @@ def judge(cfg: dict, result: dict) -> list[dict]:
         else:
             result.setdefault('served_by_new_generation', 0)
             result['served_by_new_generation'] += 1
-        want = serving.expected_rows(req['rid'], req['nrows'], req['vals'], state, serving.bias_of(project, release))
+        want = serving.expected_rows(req.get('prid', req['rid']), req['nrows'], req['vals'], state,
+                                     serving.bias_of(project, release))
         expect_by_rid[req['rid']] = want
         try:
             got = [list(r.values())[0] for r in json.loads(rec['payload'])]
